@@ -72,6 +72,25 @@ def body(data, hist):
                        {'op': 'pr_event', 'pr': pr_},
                        {'op': 'pr_event', 'pr': pr_}]
             hist.flags.add('c19_partial_merge_macro')
+        elif k_ == 2 and len(hist.world.prs) < 4:
+            # everything is ready before the robot sees the pull request for
+            # the first time: created, integrated and merged (or queued) by
+            # one job, then the usual follow-up events
+            from vf.sim.world import PEER1, PEER2, AUTHOR, ADMIN
+            dests_ = sorted(n_ for n_ in hist.world.heads() if is_dest(n_))
+            if dests_:
+                pid_ = max([p[0] for p in hist.world.all_prs()] or [0]) + 1
+                src_ = 'bugfix/TEST-%d-onestep' % (40 + len(hist.steps))
+                steps_ = [{'op': 'open_pr', 'src': src_, 'dst': dests_[
+                    data.draw(st.integers(0, len(dests_) - 1), label='osd')],
+                    'author': AUTHOR, 'base_back': 0}]
+                steps_ += [{'op': 'approve', 'pr': pid_, 'user': u}
+                           for u in (PEER1, PEER2, AUTHOR)]
+                steps_ += [{'op': 'comment', 'pr': pid_, 'user': ADMIN,
+                            'text': '@robot bypass_build_status'},
+                           {'op': 'pr_event', 'pr': pid_},
+                           {'op': 'pr_event', 'pr': pid_}]
+                hist.flags.add('c19_one_step_macro')
         for step in steps_:
             w = hist.world
             twin = None
